@@ -152,6 +152,10 @@ func makeAnnoCase(r *fw.Rng, thorough bool, format, form string, vp gen.VarProfi
 		}
 		ac.annoTxt = gen.RenderGFFSeq(r, ac.an, withFasta, fastaSeq)
 	}
+	if opts.CRLF && r.Chance(0.12) {
+		// an annotation file that went through a Windows editor
+		ac.annoTxt = strings.ReplaceAll(ac.annoTxt, "\n", "\r\n")
+	}
 	return ac
 }
 
@@ -202,7 +206,7 @@ func runC04(c *fw.Ctx, idx int) fw.Result {
 	if r.Chance(0.25) {
 		form = "sam"
 	}
-	opts := gen.AnnoOpts{MaxFeats: 6, AllowUnnamed: true, AllowSlip: true, SplitCodons: true, Isoforms: true, Rotate: true, NoStop: true, DupNames: true}
+	opts := gen.AnnoOpts{MaxFeats: 6, AllowUnnamed: true, AllowSlip: true, SplitCodons: true, Isoforms: true, Rotate: true, NoStop: true, DupNames: true, CRLF: true}
 	ac := makeAnnoCase(r, c.Thorough(), format, form, gen.DefaultVarProfile(), 8, opts)
 	threads := pickThreads(r)
 	outA, errA := ac.runVariants(-1, -1, false, 0, true, threads)
